@@ -656,6 +656,14 @@ class Interp:
         ca = info.find_class_assign(name)
         if ca is not None:
             return self.engine.class_var(self, info, name, ca)
+        key = f"$clsvar:{info.name}.{name}"
+        if key in self.st.ghost:
+            return self.st.ghost[key]
+        if self.st.contract is not None:
+            ov = self.st.contract.class_var(self, info, name)
+            if ov is not None:
+                self.st.ghost[key] = ov
+                return ov
         raise Unsupported(f"class attribute {info.name}.{name}")
 
     def instance_attr(self, info, obj: z3.ExprRef, name: str, node=None) -> z3.ExprRef:
